@@ -301,9 +301,12 @@ impl WriteAheadLog {
         self.header.metadata_mut().wal_header.global_last_lsn = Some(lsn);
         self.header.metadata_mut().wal_header.total_entries += 1;
 
-        // Try to write to block zero first
+        // Try to write to block zero first (only while no later block exists: block zero is read
+        // back first, so appending to it after a spill would reorder the log)
         if self.current_block.is_none() {
-            if self.header.available_space() >= record_size {
+            let spilled = self.header.metadata().wal_header.total_blocks > 1
+                || !self.flush_queue.is_empty();
+            if !spilled && self.header.available_space() >= record_size {
                 self.header.try_push(lsn, record)?;
                 return Ok(());
             }
